@@ -224,7 +224,7 @@ func (c *Ctx) structName(t types.Type) string {
 func opaqueStruct(t types.Type) bool {
 	if n, ok := types.Unalias(t).(*types.Named); ok && n.Obj().Pkg() != nil {
 		switch n.Obj().Pkg().Path() {
-		case "sync", "sync/atomic", "time", "os", "bufio", "bytes", "strings", "regexp", "net/http", "context", "io", "log/slog", "hash/crc32", "net/url":
+		case "sync", "sync/atomic", "time", "os", "bufio", "bytes", "strings", "regexp", "context", "io", "log/slog", "hash/crc32", "crypto/tls", "mime/multipart", "net":
 			return true
 		}
 	}
